@@ -1,3 +1,4 @@
 SPECIFICATION ESpec
 CONSTANTS
+  EnumLookup = "value-first"
   Variant = "fixed"
